@@ -6,7 +6,7 @@ from cvbase import *
 ID = "C03"
 PROPS = "C03"
 RULE = ("body-bearing requests of every framing kind (Content-Length, chunked in four size-line styles with random chunkings, "
-        "both headers, upgrade with the option in every spelling/position of the Connection list, none; HTTP/1.1 and HTTP/1.0 keep-alive) with sizes on both sides of 1024 / 8192 and up to 70000, read with scripted buffer-size "
+        "any method incl. CONNECT/OPTIONS/TRACE; both headers, upgrade with the option in every spelling/position of the Connection list, none; HTTP/1.1 and HTTP/1.0 keep-alive) with sizes on both sides of 1024 / 8192 and up to 70000, read with scripted buffer-size "
         "sequences (1, 2, 7, 1023, 1024, 1025, 4096, 8192, 65536; partial reads; reads beyond the end), followed by a tagged "
         "pipelined request; the oracle demands exactly the designated bytes, end-of-stream exactly at the boundary (never a byte "
         "of the follower), the declared length, and the follower delivered intact; non-trivial = non-empty body; distinct = lines")
@@ -66,7 +66,9 @@ def build(rng, i, transport="u"):
     size = rng.choice(SIZES3) if fr != "none" else 0
     tag = "b%d" % i
     body = body_bytes(tag, size)
-    r = AReq(method=rng.choice(["POST", "PUT"]), target="/" + tag, version="1.1", headers=[("Host", "h")], framing=fr,
+    # (the framing rules do not depend on the method)
+    r = AReq(method=rng.choice(["POST", "PUT", "POST", "PUT", "CONNECT", "OPTIONS", "DELETE", "GET", "PATCH", "TRACE", "BREW"]),
+             target="/" + tag, version="1.1", headers=[("Host", "h")], framing=fr,
              body=body, chunks=random_chunks(rng, size) if fr in ("chunked", "both") else None, chunk_style=rng.below(4))
     if rng.chance(1, 6):
         # the framing rules do not depend on the request's HTTP version: HTTP/1.0 with keep-alive, any framing
